@@ -78,7 +78,13 @@ func (s *Service) HandleHeadEvent(event *apiv1.Event) {
 
 	// Remove old subscriptions if present.
 	s.subscriptionInfosMutex.Lock()
-	delete(s.subscriptionInfos, s.chainTimeService.SlotToEpoch(data.Slot)-2)
+	for subscriptionEpoch := range s.subscriptionInfos {
+		// Everything older than the previous epoch goes, not just the epoch two back, so that
+		// entries do not linger if head events were missed for a while.
+		if subscriptionEpoch+1 < epoch {
+			delete(s.subscriptionInfos, subscriptionEpoch)
+		}
+	}
 	s.subscriptionInfosMutex.Unlock()
 
 	// Only verify on current slot.
